@@ -646,7 +646,28 @@ public:
       else
       {
         DistP cp(obj->clone());
-        // disturb the original; the copy must not notice
+        // disturb the original; the copy must not notice - first with calls that are refused
+        // (a parameter value outside its constraint, a restriction that excludes the invariant /
+        // the constant / the truncation point), then with calls that are accepted
+        for (const auto& t : targets())
+        {
+          double bad;
+          if (!badValue(t, bad)) continue;
+          try { obj->setParameterValue(shortName(t), bad); } catch (...) {}
+          try
+          {
+            bpp::ParameterList pl;
+            pl.addParameter(bpp::Parameter(obj->getNamespace() + shortName(t), bad));
+            obj->matchParametersValues(pl);
+          }
+          catch (...) {}
+        }
+        try
+        {
+          bpp::IntervalConstraint far(last.upper + std::fabs(last.upper) + 1, last.upper + 2 * std::fabs(last.upper) + 2, true, true);
+          if (cfg.kind() != "cont" || cfg.fam == "truncexp") obj->restrictToConstraint(far);
+        }
+        catch (...) {}
         try
         {
           if (cfg.kind() != "simple" && cfg.kind() != "constant") obj->setNumberOfCategories(cfg.n == 2 ? 3 : 2);
